@@ -63,8 +63,10 @@ func VerifC18Validate(section int) {
 		}
 	}
 	if all || section == 4 {
-		c.LoadBalancer.Strategy = verifPick("strategy", []string{"", "round_robin", "least_connections", "weighted_round_robin", "ip_hash", "ip_hash_consistent", "fastest"})
-		ok = verifrt.And(ok, c.LoadBalancer.Strategy != "fastest")
+		// the documented names are lower-case; a spelling that differs in letter case is not one of them
+		// (the balancer matches names exactly and would silently fall back to round robin)
+		c.LoadBalancer.Strategy = verifPick("strategy", []string{"", "round_robin", "least_connections", "weighted_round_robin", "ip_hash", "ip_hash_consistent", "IP_HASH", "Weighted_Round_Robin", "fastest"})
+		ok = verifrt.And(ok, c.LoadBalancer.Strategy != "fastest" && c.LoadBalancer.Strategy != "IP_HASH" && c.LoadBalancer.Strategy != "Weighted_Round_Robin")
 		p := &c.LoadBalancer.WebSocketPool
 		p.Enabled = verifrt.Bool("ws.enabled")
 		p.MaxIdle, p.MaxActive, p.IdleTimeoutSeconds = verifrt.Int("ws.max_idle"), verifrt.Int("ws.max_active"), verifrt.Int("ws.idle_timeout")
